@@ -325,6 +325,7 @@ def judge_history(h, want, ignore_envelope=False):
     prev = None           # previous parsed obs
     booted = False
     boots = 0
+    p12_latent = False
     holders_shown = {}    # name -> set of cidr toks shown to / written by this incarnation
     known = {}            # name -> pod CIDRs of nodes that exist or whose deletion has not been delivered yet
     listed_at_boot = None
@@ -384,7 +385,9 @@ def judge_history(h, want, ignore_envelope=False):
                         if overlap(r, r2):
                             clauses.add("P11-overlapping-clustercidrs")
                             if osp.hb != sp.hb:
-                                clauses.add("P12-overlap-different-block-size")
+                                # P12 needs a restart over holders: start-up records a holder in the ClusterCIDR ranking first
+                                # for it, possibly as a coarser block than the one it was given (activated at `boot`)
+                                p12_latent = True
             if sp.sel_raw != "-" and sp.sel not in (None, "invalid") and any(k == SENTINEL_LABEL for (k, _, _) in sp.sel):
                 clauses.add("P14-sentinel")
         if kind in ("nodeAdd", "nodeLabels"):
@@ -479,6 +482,8 @@ def judge_history(h, want, ignore_envelope=False):
 
         # ---------------- boot
         if kind == "boot":
+            if p12_latent and any(nd["cidrs"] for nd in api_nodes.values()):
+                clauses.add("P12-overlap-different-block-size")
             boots += 1
             booted = True
             svcs = [ptok(t) for t in f[1:3] if t != "-"]
@@ -563,6 +568,54 @@ def judge_history(h, want, ignore_envelope=False):
                 ao = api_ccs.get(nme)
                 if ao is not None and not ao["deleting"] and (nme != f[1] or (vo is not None and not vo["deleting"])):
                     bad("C10", i, f"ClusterCIDR {nme} exists, its deletion was not requested, yet its pool was unmapped while handling {f[1]}")
+
+        # C10 "exactly one": a live ClusterCIDR with a usable spec contributes a pool once its item has been processed
+        # without error on the current version of the object - and after start-up, which lists the current versions
+        if kind == "procCC" and ob["res"] == "ok":
+            vo = before["view_ccs"].get(f[1])
+            ao = before["api_ccs"].get(f[1])
+            sp = specs.get(f[1])
+            if vo is not None and not vo["deleting"] and ao == vo and sp is not None and sp.usable() and f[1] in api_ccs:
+                if f[1] not in set(e.get("name") for e in snap_a if "name" in e):
+                    bad("C10", i, f"ClusterCIDR {f[1]} exists, is not being deleted and its item was processed without error, yet it contributes no pool")
+        if kind == "boot":
+            mapped_a = set(e.get("name") for e in snap_a if "name" in e)
+            for nme, ao in api_ccs.items():
+                sp = specs.get(nme)
+                if sp is not None and sp.usable() and nme in before["api_ccs"] and nme not in mapped_a:
+                    bad("C10", i, f"ClusterCIDR {nme} was listed at start-up with a usable spec, yet it contributes no pool")
+
+        # C03 "loses no assignment": inside the fragment of the restart theorem - the node's pod CIDRs are blocks of one
+        # listed ClusterCIDR that selects it, not edited, and no other listed ClusterCIDR's range meets them - the new
+        # incarnation records every listed holder that is not being deleted
+        if kind == "boot":
+            used_a = set(all_used(snap_a, specs))
+            for n, nd in api_nodes.items():
+                if nd["deleting"] or not nd["cidrs"] or any(c.startswith("?") for c in nd["cidrs"]):
+                    continue
+                cds = [ptok(c) for c in nd["cidrs"]]
+                homes = []
+                for nme, ao in api_ccs.items():
+                    sp = specs.get(nme)
+                    if sp is None or not sp.usable() or nme not in before["api_ccs"]:
+                        continue
+                    if any(overlap(cd, r) for cd in cds for r in sp.ranges()):
+                        homes.append((nme, ao, sp))
+                if len(homes) != 1:
+                    continue
+                nme, ao, sp = homes[0]
+                if ao["gen"] > 1 or not sp.eligible(nd["labels"])[0]:
+                    continue
+                w = lambda r: 32 if r[0] == 4 else 128
+                if not all(any(r[0] == cd[0] and inside(cd, r) and cd[2] == w(r) - sp.hb for r in sp.ranges()) for cd in cds):
+                    continue
+                if len(set(cd[0] for cd in cds)) != len(cds):
+                    continue
+                if any(overlap(cd, sv) for cd in cds for sv in svcs):
+                    continue
+                for cd in cds:
+                    if (nme, cd) not in used_a:
+                        bad("C03", i, f"after a restart the pod CIDR {fmt(cd)} of listed node {n} is not recorded in ClusterCIDR {nme} (nor anywhere it could be)")
 
         # ---------------- C04 at idle points: what still justifies a used block
         if kind == "nodeAdd" and f[1] not in before["api_nodes"] and f[1] in api_nodes:
@@ -816,6 +869,27 @@ def check_cc_item(i, op, f, ob, before, specs, bad, clauses, del_processed, fin_
                                 bad("C06", i, f"finalizer of {name} removed while existing node {n} holds {t}, reserved only there",
                                     ("P11-overlapping-clustercidrs", "label-edit@" + n, "P17b-multi-cidr-preset", "P19-tombstone@" + n, "P13-lost-node-write@" + n,
                                      "P10-holder-not-selected", "preexisting-overlap", "P18-node-created-with-cidrs@" + n, "generation-bumped"))
+                # the same for a holder the controller has been shown whose pod CIDRs are blocks of this ClusterCIDR and of no
+                # other: it depends on it whether or not the controller remembers (a restart must not make it forget)
+                w_ = lambda r: 32 if r[0] == 4 else 128
+                others = [osp for on, osp in specs.items() if on != name and on in ob["api_ccs"]]
+                for n, nd in ob["api_nodes"].items():
+                    if nd["deleting"] or not nd["cidrs"] or any(t.startswith("?") for t in nd["cidrs"]):
+                        continue
+                    vn = before["view_nodes"].get(n)
+                    if vn is None or vn["cidrs"] != nd["cidrs"] or not sp.usable() or not sp.eligible(nd["labels"])[0]:
+                        continue
+                    cds = [ptok(t) for t in nd["cidrs"]]
+                    if not all(any(r[0] == c[0] and inside(c, r) and c[2] == w_(r) - sp.hb for r in sp.ranges()) for c in cds):
+                        continue
+                    if any(overlap(c, r) for c in cds for osp in others for r in osp.ranges()):
+                        continue
+                    if any(n in e.get("assoc", []) for e in before["snap"] if e.get("name") == name):
+                        continue   # reported above
+                    bad("C06", i, f"finalizer of {name} removed while existing node {n} holds {nd['cidrs']}, blocks of {name} and of no other ClusterCIDR",
+                        ("P11-overlapping-clustercidrs", "label-edit@" + n, "P17b-multi-cidr-preset", "P19-tombstone@" + n, "P13-lost-node-write@" + n,
+                         "P10-holder-not-selected", "preexisting-overlap", "P18-node-created-with-cidrs@" + n, "generation-bumped", "P21-recreated-before-delete-delivered",
+                         "P9-cc-created-over-holder", "P15-deleted-before-finalizer"))
             fin_removed.add(name)
 
 
